@@ -406,7 +406,7 @@ func c18Precedence(c *pure.Ctx) {
 								Concurrency: execution.ConcurrencySpec{Policy: execution.ConcurrencyPolicyAllow},
 								Template: execution.JobTemplateSpec{Spec: execution.JobTemplate{TaskTemplate: execution.TaskTemplate{Pod: &execution.PodTemplateSpec{
 									Spec: corev1.PodSpec{Containers: []corev1.Container{{Name: "c", Image: "img:${option.o}", Args: []string{
-										"o=${option.o}", "p=${option.p}", "job=${job.name}", "retry=${task.retry_index}", "unk=${option.unknown}|${job.nope}|${task.nope}|${jobconfig.nope}", "other=${other.x} $HOME ${}", "sfx=out${suffix}.log",
+										"o=${option.o}", "p=${option.p}", "job=${job.name}", "retry=${task.retry_index}", "unk=${option.unknown}|${job.nope}|${task.nope}|${jobconfig.nope}", "other=${other.x} $HOME ${}", "sfx=out${suffix}.log", "unk2=${option.dry-run}|${job.x-y}|${task.index_matrix.no-key}|${jobconfig.a b}",
 									}, Env: []corev1.EnvVar{{Name: "E", Value: "${option.o}/${task.index_num}"}}}}},
 								}}}},
 								Option: &execution.OptionSpec{Options: []execution.Option{
@@ -466,7 +466,7 @@ func c18Precedence(c *pure.Ctx) {
 						if suffix != "-" {
 							wantSfx = "out" + suffix + ".log" // the empty string is a value like any other
 						}
-						want := []string{"o=" + wantO, "p=PDEF", "job=" + wantJob, "retry=0", "unk=|||", "other=${other.x} $HOME ${}", "sfx=" + wantSfx}
+						want := []string{"o=" + wantO, "p=PDEF", "job=" + wantJob, "retry=0", "unk=|||", "other=${other.x} $HOME ${}", "sfx=" + wantSfx, "unk2=|||"}
 						tmpl := rj.Spec.Template.TaskTemplate.Pod.ConvertToCoreSpec()
 						var first string
 						for rep := 0; rep < 16; rep++ {
